@@ -127,10 +127,6 @@ theorem coreRegs_ld (s : Isa.RegFile) (f : Byte) (d d' : Word) (h : Isa.isLoad f
 
 /-! ## 3. Memory through the abstraction -/
 
-theorem absMem_read (m : BitVec 19 → Word) (i : Nat) (h : i < memWords) :
-    (absMem m).read i = m (BitVec.ofNat 19 i) := by
-  simp [absMem, Mem.read, Array.getD, h]
-
 theorem ofNat_toNat_setWidth (x : Word) : BitVec.ofNat 19 x.toNat = x.setWidth 19 := by
   apply BitVec.eq_of_toNat_eq
   simp
